@@ -99,9 +99,24 @@ def locate_item(src, relfile, item, impl=None, nth=None):
             head = re.sub(r"\s+", " ", src[m.start():b].strip())
             if head == want:
                 cands.append((b, match_brace(src, b)))
-        if len(cands) != 1:
-            raise AnchorLost("%s: impl header %r found %d times" % (relfile, impl, len(cands)))
+        if len(cands) == 0:
+            raise AnchorLost("%s: impl header %r not found" % (relfile, impl))
+        if len(cands) > 1:
+            # several inherent impl blocks with the same header: the item must be in exactly one of them
+            hits = []
+            for b0, b1 in cands:
+                try:
+                    hits.append(_locate_in(src, relfile, item, b0 + 1, b1, nth, impl))
+                except AnchorLost:
+                    pass
+            if len(hits) != 1:
+                raise AnchorLost("%s: item %r found in %d of the %d blocks %r" % (relfile, item, len(hits), len(cands), impl))
+            return hits[0]
         lo, hi = cands[0][0] + 1, cands[0][1]
+    return _locate_in(src, relfile, item, lo, hi, nth, impl)
+
+
+def _locate_in(src, relfile, item, lo, hi, nth, impl):
     words = item.split()
     pat = r"\b" + r"\s+".join(re.escape(w) for w in words) + r"\b"
     ms = find_code(src, pat, lo, hi)
@@ -194,7 +209,7 @@ def parse_unit_file(path):
                 i += 1
             obl.append(dict(name=kv["name"], props=kv.get("props", "").split(","), kind=kv.get("kind", "proof"),
                             tier=kv.get("tier", "quick"), fn=[x for x in kv.get("fn", "").split(",") if x],
-                            known=kv.get("known"), pair=kv.get("pair"), statement=" ".join(st), bounds=kv.get("bounds", "")))
+                            known=kv.get("known"), pair=kv.get("pair"), statement=" ".join(st), bounds=kv.get("bounds", ""), at=kv.get("at")))
             continue
         i += 1
     unit["obligations"] = obl
@@ -442,7 +457,14 @@ def run_unit(unit, obligations, logdir):
                 elif cbd.get(nm, {}).get("success", None) is not False:
                     vac.append(nm)
         for o in obligations:
-            rg = [r for r in ranges if r[0] == o["name"]]
+            # `at=<fn name>#<k>`: the obligation is the k-th generated function of that name (two types with `fn new`)
+            if o.get("at"):
+                an, _, ak = o["at"].partition("#")
+                cand = [r for r in ranges if r[0] == an]
+                ak = int(ak or 1)
+                rg = cand[ak - 1:ak]
+            else:
+                rg = [r for r in ranges if r[0] == o["name"]]
             rec = dict(name=o["name"], unit=unit["name"], backend="verus/z3", kind=o["kind"], functions=o["fn"],
                        statement=o["statement"], bounds=o.get("bounds", ""), known=o.get("known"), pair=o.get("pair"), rewrites=rewrites)
             if unit_broken:
@@ -454,7 +476,7 @@ def run_unit(unit, obligations, logdir):
                 rec["reason"] = "obligation function %s not present in the generated file" % o["name"]
             else:
                 mine = [e for e in errs if rg[0][1] <= e["line"] <= rg[0][2]]
-                bd = breakdown.get(o["name"])
+                bd = breakdown.get(o["name"]) if not o.get("at") else None
                 if mine or (bd and bd.get("success") is False):
                     rec["status"] = "fail"
                     rec["failed_checks"] = [dict(description=e["msg"], file=unit["name"] + ".rs (generated)", line=e["line"]) for e in mine]
